@@ -249,30 +249,7 @@ pub fn run_case(case: &Case, names: &HashMap<String, u16>) {
                     let idle = k.is_idle();
                     let block = k.can_block_update_idle_waiting(1);
                     writeln!(o, "Q@{} idle={} block={}", tick, idle as u8, block as u8).unwrap();
-                    // the saved dynamic macros (item list with recorded delays), by id
-                    let mut ids: Vec<u16> = k.dynamic_macros.keys().copied().collect();
-                    ids.sort();
-                    for id in ids {
-                        // DynamicMacroItem lives in a private module: read it through its Debug form,
-                        // `Press((KEY_A, 3))` / `Release((KEY_A, 0))` / `EndMacro(1)`
-                        let items: Vec<String> = k.dynamic_macros[&id]
-                            .iter()
-                            .map(|it| {
-                                let d = format!("{:?}", it);
-                                let inner: String = d.chars().filter(|c| !matches!(c, '(' | ')')).collect();
-                                if let Some(r) = inner.strip_prefix("Press") {
-                                    let (n, dl) = r.split_once(", ").unwrap();
-                                    format!("P{},{}", osc_by_name(n), dl)
-                                } else if let Some(r) = inner.strip_prefix("Release") {
-                                    let (n, dl) = r.split_once(", ").unwrap();
-                                    format!("R{},{}", osc_by_name(n), dl)
-                                } else {
-                                    format!("E{}", inner.trim_start_matches("EndMacro"))
-                                }
-                            })
-                            .collect();
-                        writeln!(o, "DM@{} {} : {}", tick, id, items.join(" ")).unwrap();
-                    }
+                    dump_macros(&k, tick, &mut o);
                 }
                 "t" => {
                     let n: u64 = rest.parse().unwrap();
@@ -312,6 +289,7 @@ pub fn run_case(case: &Case, names: &HashMap<String, u16>) {
         if !pending.is_empty() {
             writeln!(o, "@{}+ {}", tick, pending.join(" ")).unwrap();
         }
+        dump_macros(&k, tick, &mut o);
         let prev: Vec<String> = k.prev_keys.iter().map(|kc| (*kc as u16).to_string()).collect();
         let l = k.layout.b();
         writeln!(
@@ -384,6 +362,34 @@ pub fn run(args: &[String]) {
     }
 }
 
+
+fn dump_macros(k: &kanata_state_machine::Kanata, tick: u64, o: &mut String) {
+    use std::fmt::Write as _;
+    // the saved dynamic macros (item list with recorded delays), by id
+    let mut ids: Vec<u16> = k.dynamic_macros.keys().copied().collect();
+    ids.sort();
+    for id in ids {
+        // DynamicMacroItem lives in a private module: read it through its Debug form,
+        // `Press((KEY_A, 3))` / `Release((KEY_A, 0))` / `EndMacro(1)`
+        let items: Vec<String> = k.dynamic_macros[&id]
+            .iter()
+            .map(|it| {
+                let d = format!("{:?}", it);
+                let inner: String = d.chars().filter(|c| !matches!(c, '(' | ')')).collect();
+                if let Some(r) = inner.strip_prefix("Press") {
+                    let (n, dl) = r.split_once(", ").unwrap();
+                    format!("P{},{}", osc_by_name(n), dl)
+                } else if let Some(r) = inner.strip_prefix("Release") {
+                    let (n, dl) = r.split_once(", ").unwrap();
+                    format!("R{},{}", osc_by_name(n), dl)
+                } else {
+                    format!("E{}", inner.trim_start_matches("EndMacro"))
+                }
+            })
+            .collect();
+        writeln!(o, "DM@{} {} : {}", tick, id, items.join(" ")).unwrap();
+    }
+}
 
 fn osc_by_name(name: &str) -> u16 {
     for c in 0..1024u16 {
